@@ -199,8 +199,21 @@ func buildFieldsInfo(tp reflect.Type, fullName string) (*fieldInfo, error) {
 	switch tp.Kind() {
 	case reflect.Struct:
 		return buildStructFieldsInfo(tp, fullName)
-	case reflect.Array, reflect.Slice, reflect.Map:
+	case reflect.Array, reflect.Slice:
 		return buildFieldsInfo(mapping.Deref(tp.Elem()), fullName)
+	case reflect.Map:
+		// the keys of a map are data, not field names: keep a map node, otherwise
+		// a key of a nested map (map[string]map[string]T, []map[string]T) that is
+		// spelled like a field of T is taken for that field.
+		elemInfo, err := buildFieldsInfo(mapping.Deref(tp.Elem()), fullName)
+		if err != nil {
+			return nil, err
+		}
+
+		return &fieldInfo{
+			children: make(map[string]*fieldInfo),
+			mapField: elemInfo,
+		}, nil
 	case reflect.Chan, reflect.Func:
 		return nil, fmt.Errorf("unsupported type: %s, fullName: %s", tp.Kind(), fullName)
 	default:
